@@ -420,6 +420,85 @@ def work_sync_seq(chunk):
     return res
 
 
+def run_async_reuse(cfg, drops):
+    """Real asyncio loop: session A times out (`drops` requests unanswered) and is dropped; a new session B in the same
+    loop (it will usually get A's descriptor number) must have its reply delivered."""
+    import asyncio
+    import gc
+
+    drivers.subject()
+    from gufo.snmp import SnmpSession
+
+    agent = drivers.new_agent_socket(blocking=False)
+    port = agent.getsockname()[1]
+    seen = {"n": 0}
+
+    def on_readable():
+        while True:
+            try:
+                data, addr = agent.recvfrom(65535)
+            except BlockingIOError:
+                return
+            seen["n"] += 1
+            if seen["n"] <= drops:
+                continue
+            req = drivers.open_request(cfg, data, strict=False, check_mac=False)
+            agent.sendto(reply_for(cfg, req), addr)
+
+    async def main():
+        loop = asyncio.get_running_loop()
+        loop.add_reader(agent.fileno(), on_readable)
+        try:
+            a = SnmpSession(**drivers.session_kwargs(cfg, port, 0.15))
+            first = []
+            for _ in range(drops):
+                try:
+                    await a.get(rb.oid_str(SYS))
+                    first.append("value")
+                except TimeoutError:
+                    first.append("timeout")
+            del a
+            gc.collect()
+            b = SnmpSession(**drivers.session_kwargs(cfg, port, 1.0))
+            t0 = loop.time()
+            try:
+                v = await b.get(rb.oid_str(SYS))
+                return first, ("value", v), loop.time() - t0
+            except BaseException as e:  # noqa: BLE001
+                if isinstance(e, (KeyboardInterrupt, SystemExit, MemoryError)):
+                    raise
+                return first, ("exc", type(e).__name__), loop.time() - t0
+        finally:
+            loop.remove_reader(agent.fileno())
+
+    loop = asyncio.new_event_loop()
+    try:
+        return loop.run_until_complete(main())
+    finally:
+        loop.close()
+        agent.close()
+
+
+def work_async_reuse(chunk):
+    res = common.Result()
+    for case in chunk:
+        cfg = Cfg.from_desc(case["cfg"])
+        first, second, el = run_async_reuse(cfg, case["drops"])
+        res.count("schedules")
+        res.distinct()
+        res.outcome("async-reuse:" + second[0])
+        if second != ("value", 42):
+            # confirm
+            again = [run_async_reuse(cfg, case["drops"])[1] for _ in range(2)]
+            if all(x != ("value", 42) for x in again):
+                res.violation(
+                    "async/%s/new-session-after-a-timed-out-one/reply-lost" % cfg.version,
+                    "session A timed out %d time(s) and was dropped; session B in the same loop: reply sent at once but the call ended with %r after %.3f s" % (case["drops"], second, el),
+                    {"driver": "async-reuse", "cfg": case["cfg"], "drops": case["drops"]},
+                )
+    return res
+
+
 def work_no_blocking(chunk):
     from . import c19
 
@@ -437,6 +516,9 @@ def work_no_blocking(chunk):
 
 
 def replay(case):
+    if case.get("driver") == "async-reuse":
+        common.prepare_stage()
+        return {"result": repr(run_async_reuse(Cfg.from_desc(case["cfg"]), case["drops"]))}
     if case.get("driver") == "no-blocking":
         common.prepare_stage()
         from . import c19
@@ -521,5 +603,7 @@ def run(tier):
     # nothing in the async client may block the event loop: while one session is being rate-limited, the timers of all
     # others must keep running (a blocking sleep is invisible to virtual time, so it is observed directly)
     common.run_cases(rec, work_no_blocking, [{"cfg": c.describe()} for c in (Cfg("v1"), Cfg("v2c"), Cfg("v3", auth=2, priv=2, discover=True))], chunk=1)
+    # a timed-out session is dropped and a new one created in the same loop (descriptor numbers are reused)
+    common.run_cases(rec, work_async_reuse, [{"cfg": c.describe(), "drops": d} for c in (Cfg("v2c"), Cfg("v3", auth=1)) for d in (1, 2)], chunk=1)
     n = rec.counters["schedules"]
     return rec.finish(evaluations=n, distinct_nontrivial=rec.distinct_n)
